@@ -1199,7 +1199,7 @@ def lexers_check(fns, table):
         else:
             decided.add('escaped_identifier_impl')
             if set(_lit(st[1][2][0])) != set(b' \t\r\n'):
-                report(f, ('ends-at-white-space', 'the identifier stops at %r instead of at blank, tab, CR, LF' % bytes(sorted(set(_lit(st[1][2][0]))))), props=('C06', 'C04', 'C05', 'C11'))      # macro names may be escaped identifiers
+                report(f, ('ends-at-white-space', 'the identifier stops at %r instead of at blank, tab, CR, LF' % bytes(sorted(set(_lit(st[1][2][0]))))), props=('C06', 'C04', 'C05', 'C11', 'C18'))      # macro names may be escaped identifiers; a comment swallowed into the identifier survives strip_comments
     # ---- macro text: the body of a `define runs to the first line end that no backslash escapes
     f = table.get('macro_text')
     if f is None or not f.ast:
@@ -1312,6 +1312,11 @@ def lexers_check(fns, table):
         checked += 1
         names = called_names(f.ast)
         wrong = sorted(c for c in names if not c.endswith('_exact') and (c + '_exact') in table)
+        impls_ = sorted(c for c in names if c.endswith('_impl'))
+        own_impl = n_[:-len('_exact')] + '_impl'
+        if impls_ and own_impl in table and own_impl not in impls_:
+            report(f, ('is-built-on-its-own-lexer', '%s is built on %s instead of %s: another character class / keyword check' % (n_, ', '.join(impls_), own_impl)), props=('C11', 'C05', 'C04', 'C13'))
+            continue
         if 'ws' in names or wrong:
             report(f, ('takes-no-white-space-after-the-token', '%s is built from %s: the white space (inside a directive: the line end too) after the token becomes part of it' % (
                 n_, ', '.join((['ws(..)'] if 'ws' in names else []) + wrong))), props=('C11', 'C05'))
